@@ -129,6 +129,8 @@ func WriteByID(w io.Writer, id int, ctx *Ctx) (err error) {
 
 // Internal renderer.
 func write(w io.Writer, tpl *Tpl, ctx *Ctx) (err error) {
+	// Bound tags belong to one rendering: a tag left open by the previous one (exit, error) must not leak into this.
+	ctx.bnd = ctx.bnd[:0]
 	if err = writeTree(w, tpl, ctx); err != nil {
 		return
 	}
